@@ -398,7 +398,7 @@ def run_case(case, world):
 
 # ---- batch driver -----------------------------------------------------------------------------------------------
 
-def run_check(prop_mod, tier, verif_seed, nruns=None, workers=None, wall_cap=None, **_):
+def run_check(prop_mod, tier, verif_seed, nruns=None, workers=None, wall_cap=None, write_evidence=True, **_):
     from .. import runner
     t0 = time.time()
     cfg = prop_mod.TIERS[tier]
@@ -521,9 +521,10 @@ def run_check(prop_mod, tier, verif_seed, nruns=None, workers=None, wall_cap=Non
         'assumptions': getattr(prop_mod, 'ASSUMPTIONS', []),
         'wall_s': round(wall, 2), 'violations': len(final),
     }
-    os.makedirs(os.path.join(VERIF_DIR, 'evidence'), exist_ok=True)
-    with open(os.path.join(VERIF_DIR, 'evidence', 'C04.json'), 'w') as fp:
-        json.dump(ev, fp, indent=1, default=str)
+    if write_evidence:
+        os.makedirs(os.path.join(VERIF_DIR, 'evidence'), exist_ok=True)
+        with open(os.path.join(VERIF_DIR, 'evidence', 'C04.json'), 'w') as fp:
+            json.dump(ev, fp, indent=1, default=str)
     for ln in out_lines:
         print(ln)
     print('C04 tier=%s seed=%d hash_seeds=%d/%d items=%d wall=%.1fs violations=%d known=%d harness_errors=%d '
